@@ -122,6 +122,15 @@ pub fn designs() -> Vec<Design> {
             PerColumn, PerColumn),
         d("p3_n12_ff2x2x3", full_factorial(&[2, 2, 3], 1), Skip, Same),
         d("p3_n12_frac2x3x4_cyclic", (0..12).map(|i| vec![i % 2, i % 3, i % 4]).collect(), Skip, Same),
+        // ---- correlated (non-orthogonal) designs: sheared factorials and a nearly collinear pair
+        d("p2_n6_sheared2x3_s_plus_e_and_e", en::grid(&[3, 2]).into_iter().map(|g| vec![(g[0] + 2 * g[1]) as i64, (2 * g[1]) as i64]).collect(), PerColumn, PerColumn),
+        d("p2_n9_nearly_collinear_a_and_3a_plus_b", en::grid(&[3, 3]).into_iter().map(|g| vec![g[0] as i64, (3 * g[0] + g[1]) as i64]).collect(), Same, Same),
+        d(
+            "p3_n12_sheared3x2x2_s_se_sef",
+            en::grid(&[3, 2, 2]).into_iter().map(|g| vec![g[0] as i64, (g[0] + 2 * g[1]) as i64, (g[0] + 2 * g[1] + 2 * g[2]) as i64]).collect(),
+            Same,
+            Same,
+        ),
         // ---- tall designs (n >= 8 x number of columns incl. the constant column): replicated / extended lattices
         d("p1_n16_4levels_x4", full_factorial(&[4], 4), Cross, Cross),
         d("p1_n24_6levels_x4", full_factorial(&[6], 4), Skip, Cross),
@@ -213,7 +222,7 @@ pub fn enumerate(thorough: bool) -> Vec<Data> {
         let big = d.pts.len() > 1000;
         let z = centred(&d.pts);
         let y = targets(&z);
-        for (os, ss) in images(p, mode).into_iter().take(if big && !thorough { 1 } else { usize::MAX }) {
+        for (os, ss) in images(p, mode).into_iter().take(if big && !thorough { 1 } else if d.pts.len() > 4000 { 2 } else { usize::MAX }) {
             let x: Vec<Vec<f64>> = z.iter().map(|r| (0..p).map(|j| q((r[j] + os[j]) * ss[j])).collect()).collect();
             out.push(Data { design: d.id.to_string(), variant: "full_rank".into(), offsets: os.clone(), scales: ss.clone(), x, y: y.clone(), ols_only: false, only_float: Option::None, reduced_targets: big });
         }
@@ -249,6 +258,14 @@ pub fn enumerate(thorough: bool) -> Vec<Data> {
             const L: [f64; 3] = [3.0, -1.0, 2.0];
             let ye: Vec<Vec<f64>> = z.iter().map(|r| (0..3).map(|t| C[t] + K[t] * (2.0 * r[0]) * (2.0 * r[0]) + if p > 1 { L[t] * r[1] } else { 0.0 }).collect()).collect();
             out.push(Data { design: d.id.to_string(), variant: "even_targets".into(), offsets: vec![0.0; p], scales: vec![1.0; p], x: z.clone(), y: ye, ols_only: false, only_float: Option::None, reduced_targets: big });
+        }
+        // suppressor targets on the correlated designs (centred image only): y = K (z0 - z1) + c + small noise
+        if d.id.contains("sheared") || d.id.contains("nearly_collinear") {
+            const C: [f64; 3] = [1.0, -2.0, 0.5];
+            const K: [f64; 3] = [1.0, -1.5, 2.0];
+            let ys: Vec<Vec<f64>> = z.iter().enumerate().map(|(i, r)| (0..3).map(|t| q(C[t] + K[t] * (r[0] - r[1]) + 0.2 * en::jitter(i, t))).collect()).collect();
+            let x: Vec<Vec<f64>> = z.iter().map(|r| r.iter().map(|&v| q(v)).collect()).collect();
+            out.push(Data { design: d.id.to_string(), variant: "suppressor_targets".into(), offsets: vec![0.0; p], scales: vec![1.0; p], x, y: ys, ols_only: false, only_float: Option::None, reduced_targets: false });
         }
         // rank-deficient variants (p <= 2 so that p stays <= 3): same image for all columns
         let variants = d.id == "p1_n6_3levels_x2" || (thorough && d.id == "p2_n4_ff2x2");
